@@ -1,0 +1,14 @@
+//go:build verif
+
+// Contracts for package ft, read by /verif/govc (comments only).
+package ft
+
+// ft.Once(f): f runs only inside sync.Once.Do (trusted: one execution over all
+// goroutines, every caller returns after it completed), exactly once there.
+//@ func Once$1
+//@   props C15
+//@   option old section
+//@   requires f != nil && o != nil
+//@   ensures executor: !old(oncedone(o)) ==> calls(f) == old(calls(f)) + 1
+//@   ensures latecomer: old(oncedone(o)) ==> calls(f) == old(calls(f))
+//@   ensures oncedone(o)
